@@ -85,7 +85,7 @@ func flipSpread(q *gqlgen.Query, which int) (*gqlgen.Query, string, bool) {
 func main() {
 	o := vh.ParseFlags()
 	run := vh.NewRun("C19", o)
-	run.Rule = "generated schema (reflect.StructOf/MakeFunc through schemabuilder) + data tree + query with @skip/@include on fields, inline fragments, spreads (same fragment spread several times), union member fragments, inline fragments without type condition, literal and variable conditions (variables sent, or left to a default declared in the operation); non-trivial = the query carries at least two directives, at least one node is deleted by pruning and the pruned result is a non-empty object; distinct by query text + data"
+	run.Rule = "(a further third of the cases: the same kind of annotated query, and same-alias occurrences of one object field with a leaf excluded where it comes first and kept later, run through an in-process federation gateway over two services next to its pruned form; non-trivial as below) generated schema (reflect.StructOf/MakeFunc through schemabuilder) + data tree + query with @skip/@include on fields, inline fragments, spreads (same fragment spread several times), union member fragments, inline fragments without type condition, literal and variable conditions (variables sent, or left to a default declared in the operation); non-trivial = the query carries at least two directives, at least one node is deleted by pruning and the pruned result is a non-empty object; distinct by query text + data"
 	r := vh.NewRng(o.Seed)
 
 	var cases []*gqlgen.Case
@@ -103,9 +103,15 @@ func main() {
 		for i := 0; i < o.N; i++ {
 			cr := r.Fork()
 			if len(seeds) == 0 {
-				cases = append(cases, genCase(cr))
+				if i%4 == 3 {
+					cases = append(cases, genGatewayCase(cr))
+				} else {
+					cases = append(cases, genCase(cr))
+				}
+			} else if sd := seeds[cr.Intn(len(seeds))]; isGatewayCase(sd) {
+				cases = append(cases, genGatewayCase(cr))
 			} else {
-				cases = append(cases, gqlgen.Variant(cr, seeds[cr.Intn(len(seeds))], gqlgen.QOpts{PDir: 50, Depth: 3, AllowDup: true}, 0, false))
+				cases = append(cases, gqlgen.Variant(cr, sd, gqlgen.QOpts{PDir: 50, Depth: 3, AllowDup: true}, 0, false))
 			}
 		}
 	} else {
@@ -119,6 +125,10 @@ func main() {
 		}
 		for i := 0; i < o.N; i++ {
 			cases = append(cases, genCase(r.Fork()))
+		}
+		// the same property through the federation gateway
+		for i := 0; i < o.N/3; i++ {
+			cases = append(cases, genGatewayCase(r.Fork()))
 		}
 	}
 
@@ -139,6 +149,10 @@ func main() {
 
 	for idx, c := range cases {
 		run.LogCase(idx, c)
+		if isGatewayCase(c) {
+			runGatewayCase(run, idx, c)
+			continue
+		}
 		b, err := gqlgen.Build(c.Spec, c.Modes[0])
 		if err != nil {
 			run.Fail(idx, "harness-schema-build", err.Error(), c)
@@ -167,6 +181,12 @@ func main() {
 		}
 		if !wf {
 			run.Hist("malformed-directives")
+		}
+		if a, b := memberFragsInNamed(q); a > 0 {
+			run.Hist("decorated-union-member-fragment-inside-named-fragment")
+			if b > 0 {
+				run.Hist("decorated-member-fragments-nested-two-deep-inside-named-fragment")
+			}
 		}
 		if obsA.Stage == "harness" || obsP.Stage == "harness" {
 			run.Fail(idx, "escaped-panic-or-timeout", obsA.String()+" / "+obsP.String(), c)
@@ -269,6 +289,53 @@ func main() {
 	}
 	flush(len(cases))
 	run.Finish()
+}
+
+// memberFragsInNamed counts, inside the bodies of the named fragments the query uses, the decorated
+// fragments on a union member type (inline, or spreads of a fragment on a member), and those of them
+// that lie inside another decorated member fragment.
+func memberFragsInNamed(q *gqlgen.Query) (n, nested int) {
+	member := map[string]bool{"MA": true, "MB": true, "MC": true}
+	onOf := map[string]string{}
+	for _, f := range q.Frags {
+		onOf[f.Name] = f.On
+	}
+	var walk func(ns []*gqlgen.Node, inside bool)
+	walk = func(ns []*gqlgen.Node, inside bool) {
+		for _, x := range ns {
+			dec := false
+			if len(x.Dirs) > 0 && ((x.Kind == "inline" && member[x.On]) || (x.Kind == "spread" && member[onOf[x.Frag]])) {
+				dec = true
+				n++
+				if inside {
+					nested++
+				}
+			}
+			walk(x.Sub, inside || dec)
+		}
+	}
+	used := map[string]bool{}
+	var mark func(ns []*gqlgen.Node)
+	mark = func(ns []*gqlgen.Node) {
+		for _, x := range ns {
+			if x.Kind == "spread" && !used[x.Frag] {
+				used[x.Frag] = true
+				for _, f := range q.Frags {
+					if f.Name == x.Frag {
+						mark(f.Body)
+					}
+				}
+			}
+			mark(x.Sub)
+		}
+	}
+	mark(q.Body)
+	for _, f := range q.Frags {
+		if used[f.Name] {
+			walk(f.Body, false)
+		}
+	}
+	return
 }
 
 func stripDirs(q *gqlgen.Query) *gqlgen.Query {
